@@ -37,3 +37,6 @@ def run(rep):
     mr.rule_reset(rep, "C01.reset", classes=(mr.MQ, "gherkin.ast_builder.AstBuilder"))
     ms.rule_parse_resets(rep, "C01.parsereset")
     sh.rule_key_reads(rep, "C01.reads")
+    # an unknown dialect is a typed, located error; the look-ahead stops at EOF through the EOF-guarded wrappers
+    dr.rule_header(rep, "C01.header")
+    pr.rule_look(rep, "C01.look")
